@@ -160,6 +160,28 @@ def gates(chk, F):
     acts = [b for b, _ in divs + subs]
     k2.gate_rule(chk, q, "gates", qk, "conversion:conformance-test", acts, c02.same_dim_accept(None),
                  "the affine conversion is computed only behind `top.unit == scale_unit.unit`", "a temperature conversion is computed without the conformance test")
+    # the conversion arm has one way to an answer: the whole left operand is evaluated (which is where the scale operator's
+    # own "dimensionless operand" test lives) and that value goes through the affine map.  A second path that evaluates a
+    # *part* of the operand, or builds a reply of its own, bypasses the suffix gate: `5 m degC -> degC` would answer 5 °C.
+    hq = F.hir_of(q)
+    darm = None
+    for m in hir_walk(hq["body"]):
+        if m.get("k") == "Match" and m.get("src") == "Normal":
+            for a in m["arms"]:
+                pt = H.pat_str(a["pat"]).replace(" ", "")
+                if pt.startswith("Query::Convert(") and "Conversion::Degree(" in pt:
+                    darm = a
+    if darm is None:
+        raise AnchorLost("eval_query: the `-> <scale>` arm was not found")
+    binds = [b for b in hir_walk(darm["pat"]) if b.get("pk") == "bind"]
+    top_lid = binds[0]["lid"] if binds else None
+    evs = [c for c in hir_walk(darm["body"]) if c.get("k") == "Call" and c["f"].get("k") == "Path" and str(c["f"]["r"].get("path", "")).endswith("eval::eval_expr")]
+    shows = [c for c in hir_walk(darm["body"]) if c.get("k") == "MethodCall" and c["name"] == "show" and "ctx" in H.expr_str(c["recv"])]
+    whole = [c for c in evs if len(c["args"]) == 2 and (H.local_name(c["args"][1]) or (None, None))[1] == top_lid]
+    chk.decide(len(evs) == 1 and len(whole) == 1 and len(shows) == 1, "gates", qk, "conversion:one-path-through-the-operand", "%s:%d" % (q.file, darm["line"]),
+               "the `-> <scale>` arm evaluates the whole left operand once and builds one reply from it",
+               "the `-> <scale>` arm has %d evaluation(s) (%d of the whole operand) and %d reply construction(s): a path that evaluates a part of the "
+               "operand or answers on its own skips the scale operator's dimensionless test (`5 m degC -> degC` answers `5 °C`)" % (len(evs), len(whole), len(shows)))
     # compound targets: eval_unit_name's Degree arm is an error
     u = F.find(CORE, "runtime::eval::eval_unit_name")
     h = F.hir_of(u)
